@@ -267,7 +267,8 @@ def toks_to_ints(toks):
     return out
 
 
-def run_case(ctx, prog, script, idx, work):
+def run_both(ctx, prog, script, idx, work):
+    """stage 1 (no model): online run + replay.  Returns None when the case could not be evaluated, else a record"""
     n = script["n"]
     d = os.path.join(work, "c%d" % idx)
     shutil.rmtree(d, ignore_errors=True)
@@ -276,7 +277,7 @@ def run_case(ctx, prog, script, idx, work):
     open(sp, "w").write(script_text(script))
     t1 = os.path.join(d, "t1.txt")
     case = {"script": script}
-    # 1. online
+    rec = {"case": case, "n": n, "ok": True}
     rc, so, se = smpirun(common(n) + ["-trace-ti", "-trace-file", t1, prog, sp])
     online = {int(m.group(1)): float(m.group(2)) for m in re.finditer(r"^END (\d+) (\S+)$", so, flags=re.M)}
     if rc != 0 or len(online) != n:
@@ -286,64 +287,8 @@ def run_case(ctx, prog, script, idx, work):
     if tr1 is None or sorted(tr1) != list(range(n)):
         ctx.mismatch("online-trace", "TI trace files missing/incomplete", case)
         return None
-    # 2. K(encode)
-    calls = rank_calls(script)
-    flat, where = [], []
-    for r in range(n):
-        for i, c in enumerate(calls[r]):
-            ints = c[1] if isinstance(c, tuple) else c
-            flat.append(ints)
-            where.append((r, i))
-    enc = fw.run_model("c37", "run_c37_encode", [[1, n] + c for c in flat])
-    nrm = fw.run_model("c37", "run_c37_norm", [[n] + c for c in flat])
-    encd = dict(zip(where, enc))
-    nrmd = dict(zip(where, nrm))
-    expected_norm = {}   # (rank, line index) -> norm ints
-    ok = True
-    for r in range(n):
-        lines = tr1[r]
-        j = 0
-        for i, c in enumerate(calls[r]):
-            m = encd[(r, i)]
-            if isinstance(c, tuple):   # one or more identical test lines
-                k = 0
-                while j < len(lines) and line_matches(m, lines[j]):
-                    expected_norm[(r, j)] = nrmd[(r, i)]
-                    j += 1
-                    k += 1
-                if k == 0:
-                    ok = False
-            else:
-                if j < len(lines) and line_matches(m, lines[j]):
-                    expected_norm[(r, j)] = nrmd[(r, i)]
-                    j += 1
-                else:
-                    ok = False
-            if not ok:
-                got = " ".join(lines[j]) if j < len(lines) else "<end of trace>"
-                ctx.mismatch("encode-vs-tracer", "rank %d: the tracer wrote '%s' where the model's encode gives %s for call %s"
-                             % (r, got, m, c), case)
-                break
-        if ok and j != len(lines):
-            ok = False
-            ctx.mismatch("encode-vs-tracer", "rank %d: unexpected extra trace line '%s'" % (r, " ".join(lines[j])), case)
-        if not ok:
-            break
-    # 3a. K(decode) on the real lines
-    if ok:
-        keys = sorted(expected_norm)
-        inputs = []
-        for (r, j) in keys:
-            ti = toks_to_ints(tr1[r][j])
-            inputs.append([6, n] + (ti if ti is not None else [99]))
-        dec = fw.run_model("c37", "run_c37_decode", inputs)
-        for key, dcd in zip(keys, dec):
-            if dcd != expected_norm[key]:
-                ctx.mismatch("decode-roundtrip", "rank %d line '%s': model decode gives %s, the traced call normalises to %s"
-                             % (key[0], " ".join(tr1[key[0]][key[1]]), dcd, expected_norm[key]), case)
-                ok = False
-                break
-    # 4. replay (with TI tracing on: the replay re-prints what its parsers read)
+    rec["tr1"] = tr1
+    # replay (with TI tracing on: the replay re-prints what its parsers read)
     t2 = os.path.join(d, "t2.txt")
     rc, so, se = smpirun(common(n) + ["--log=smpi_replay.thres:verbose", "--log=smpi_replay.fmt:%i|%.12r|%m%n",
                                       "-trace-ti", "-trace-file", t2, "-replay", t1])
@@ -355,38 +300,74 @@ def run_case(ctx, prog, script, idx, work):
                 last[int(p[0]) - 1] = float(p[1])
             except ValueError:
                 pass
+    sample = " | ".join(" ".join(x) for r in sorted(tr1) for x in tr1[r][1:3])[:300]
     if rc != 0 or sorted(last) != list(range(n)):
-        ctx.fail("replay-aborts", "the replay of the recorded trace does not run to completion (rc=%d): %s" % (rc, (so + se)[-500:].strip()), case)
-        return False
-    worst = max(range(n), key=lambda r: abs(last[r] - online[r]) / max(1.0, abs(online[r])))
-    dev = abs(last[worst] - online[worst])
-    if dev > TOL * max(1.0, abs(online[worst])):
-        ctx.fail("dates-differ", "rank %d finishes at %.12f online and at %.12f in the replay of its trace (|diff| %.3g); trace line sample: %s"
-                 % (worst, online[worst], last[worst], dev, " | ".join(" ".join(x) for x in tr1[worst][1:4])), case)
-        return False
-    # 3b. the real parsers, observed through the trace written by the replay
-    tr2 = read_trace(t2)
-    if ok and tr2 is not None:
-        for r in range(n):
-            l1 = [x for x in tr1[r]]
-            l2 = [x for x in tr2.get(r, [])]
-            if len(l1) != len(l2):
-                ctx.mismatch("parser-reprint", "rank %d: %d lines traced online, %d by the replay" % (r, len(l1), len(l2)), case)
-                ok = False
-                break
-            for a, b in zip(l1, l2):
-                if a[0] == "sendRecv" and b[0] == "sendRecv" and len(a) == len(b):   # the replay prints actor ids there
-                    a = a[:2] + ["*"] + a[3:4] + ["*"] + a[5:]
-                    b = b[:2] + ["*"] + b[3:4] + ["*"] + b[5:]
-                if a[0] != b[0] or len(a) != len(b) or any(x != y and not same_number(x, y) for x, y in zip(a[1:], b[1:])):
-                    ctx.mismatch("parser-reprint", "rank %d: line '%s' is re-printed by the replay as '%s': its parser read other values"
-                                 % (r, " ".join(a), " ".join(b)), case)
-                    ok = False
-                    break
-            if not ok:
-                break
+        why = [l for l in (so + "\n" + se).split("\n") if re.search(r"CRITICAL|what\(\)|MPI_ERR|replay failed|Assertion|out of range", l)]
+        ctx.fail("replay-aborts", "the replay of the recorded trace does not run to completion (rc=%d): %s ; trace: %s"
+                 % (rc, (why[0].strip()[:300] if why else (so + se)[-300:].strip()), sample), case)
+        rec["ok"] = False
+    else:
+        worst = max(range(n), key=lambda r: abs(last[r] - online[r]) / max(1.0, abs(online[r])))
+        dev = abs(last[worst] - online[worst])
+        if dev > TOL * max(1.0, abs(online[worst])):
+            ctx.fail("dates-differ", "rank %d finishes at %.12f online and at %.12f in the replay of its trace (|diff| %.3g); trace: %s"
+                     % (worst, online[worst], last[worst], dev, sample), case)
+            rec["ok"] = False
+    rec["tr2"] = read_trace(t2) if rec["ok"] else None
     shutil.rmtree(d, ignore_errors=True)
-    return ok
+    return rec
+
+
+def check_encode(ctx, rec, enc, nrm):
+    """stage 2: every traced line = encode of the call the script makes.  enc/nrm: {(rank, call index): ints}"""
+    n, tr1, case = rec["n"], rec["tr1"], rec["case"]
+    calls = rec["calls"]
+    expected_norm = {}
+    for r in range(n):
+        lines = tr1[r]
+        j = 0
+        for i, c in enumerate(calls[r]):
+            m = enc[(r, i)]
+            hit = False
+            if isinstance(c, tuple):   # one or more identical test lines
+                while j < len(lines) and line_matches(m, lines[j]):
+                    expected_norm[(r, j)] = nrm[(r, i)]
+                    j += 1
+                    hit = True
+            elif j < len(lines) and line_matches(m, lines[j]):
+                expected_norm[(r, j)] = nrm[(r, i)]
+                j += 1
+                hit = True
+            if not hit:
+                got = " ".join(lines[j]) if j < len(lines) else "<end of trace>"
+                ctx.mismatch("encode-vs-tracer", "rank %d: the tracer wrote '%s' where the model's encode gives %s %s for call %s"
+                             % (r, got, NAMES[m[0]] if m and 0 <= m[0] < len(NAMES) else "?", m[1:], c), case)
+                return None
+        if j != len(lines):
+            ctx.mismatch("encode-vs-tracer", "rank %d: unexpected extra trace line '%s'" % (r, " ".join(lines[j])), case)
+            return None
+    return expected_norm
+
+
+def check_reprint(ctx, rec):
+    """stage 3b: the real parsers, observed through the trace written by the replay"""
+    tr1, tr2, case = rec["tr1"], rec["tr2"], rec["case"]
+    if tr2 is None:
+        return True
+    for r in range(rec["n"]):
+        l1, l2 = tr1[r], tr2.get(r, [])
+        if len(l1) != len(l2):
+            ctx.mismatch("parser-reprint", "rank %d: %d lines traced online, %d by the replay" % (r, len(l1), len(l2)), case)
+            return False
+        for a, b in zip(l1, l2):
+            if a[0] == "sendRecv" and b[0] == "sendRecv" and len(a) == len(b):   # the replay prints actor ids there
+                a = a[:2] + ["*"] + a[3:4] + ["*"] + a[5:]
+                b = b[:2] + ["*"] + b[3:4] + ["*"] + b[5:]
+            if a[0] != b[0] or len(a) != len(b) or any(x != y and not same_number(x, y) for x, y in zip(a[1:], b[1:])):
+                ctx.mismatch("parser-reprint", "rank %d: line '%s' is re-printed by the replay as '%s': its parser read other values"
+                             % (r, " ".join(a), " ".join(b)), case)
+                return False
+    return True
 
 
 def same_number(x, y):
@@ -413,14 +394,56 @@ def run(ctx):
     if ctx.replay:
         scripts = [json.load(open(ctx.replay))["case"]["script"]]
     else:
-        scripts = list(CORPUS) + [gen_script(ctx.rng, big=not ctx.quick) for _ in range(ctx.n(30, 400))]
+        scripts = list(CORPUS) + [gen_script(ctx.rng, big=not ctx.quick) for _ in range(ctx.n(30, 300))]
     dist = {}
-    for idx, s in enumerate(scripts):
-        r = run_case(ctx, prog, s, idx, work)
+    recs = [run_both(ctx, prog, s, idx, work) for idx, s in enumerate(scripts)]
+    live = [r for r in recs if r is not None]
+    # stage 2: one batched call of the extracted encode / norm for all calls of all cases
+    keys, enc_in, nrm_in = [], [], []
+    for ci, r in enumerate(live):
+        r["calls"] = rank_calls(r["case"]["script"])
+        for rk in range(r["n"]):
+            for i, c in enumerate(r["calls"][rk]):
+                ints = c[1] if isinstance(c, tuple) else c
+                keys.append((ci, rk, i))
+                enc_in.append([1, r["n"]] + ints)
+                nrm_in.append([r["n"]] + ints)
+    if live:
+        enc_out = fw.run_model("c37", "run_c37_encode", enc_in)
+        nrm_out = fw.run_model("c37", "run_c37_norm", nrm_in)
+        per = [({}, {}) for _ in live]
+        for (ci, rk, i), e, m in zip(keys, enc_out, nrm_out):
+            per[ci][0][(rk, i)] = e
+            per[ci][1][(rk, i)] = m
+        dkeys, dec_in = [], []
+        for ci, r in enumerate(live):
+            r["expected_norm"] = check_encode(ctx, r, per[ci][0], per[ci][1])
+            if r["expected_norm"] is None:
+                r["ok"] = False
+                continue
+            for (rk, j) in sorted(r["expected_norm"]):
+                ti = toks_to_ints(r["tr1"][rk][j])
+                dkeys.append((ci, rk, j))
+                dec_in.append([6, r["n"]] + (ti if ti is not None else [99]))
+        # stage 3a: batched decode of the real lines
+        if dec_in:
+            dec_out = fw.run_model("c37", "run_c37_decode", dec_in)
+            reported = set()
+            for (ci, rk, j), dcd in zip(dkeys, dec_out):
+                r = live[ci]
+                if dcd != r["expected_norm"][(rk, j)] and ci not in reported:
+                    reported.add(ci)
+                    r["ok"] = False
+                    ctx.mismatch("decode-roundtrip", "rank %d line '%s': model decode gives %s, the traced call normalises to %s"
+                                 % (rk, " ".join(r["tr1"][rk][j]), dcd, r["expected_norm"][(rk, j)]), r["case"])
+        for r in live:
+            if r["expected_norm"] is not None and not check_reprint(ctx, r):
+                r["ok"] = False
+    for idx, (s, r) in enumerate(zip(scripts, recs)):
         for k in kinds_of(s):
             dist[k] = dist.get(k, 0) + 1
         nontriv = r is not None and any(o[0] != 19 for o in s["ops"])
-        ctx.case(json.dumps(s, sort_keys=True), nontriv, {"script": s, "verdict": r} if idx in (0, 4, len(CORPUS)) else None)
+        ctx.case(json.dumps(s, sort_keys=True), nontriv, {"script": s, "verdict": r and r["ok"]} if idx in (0, 4, len(CORPUS)) else None)
     shutil.rmtree(work, ignore_errors=True)
     ctx.cov["input_distribution"] = {"scripts": len(scripts), "ranks": "2..8", "ops per script": "3..14",
                                      "scripts containing opcode (1 send,2 isend/irecv,3 waitall,4 wait,5 test loop,6 barrier,7 bcast,8 reduce,"
